@@ -152,8 +152,9 @@ prop("C13", "keep-alive detects a silent peer and only a silent peer", "fault_en
      "silent after a generated packet of connection 1 (and 2): the client must close that transport itself and dial again (stuck "
      "detector, no upper time bound); negative class: every PINGREQ answered for >= 10 intervals with a far-away timeout: no close, "
      "no redial, no ErrPingTimeout. Non-trivial = >= 3 pings before the end, a cancel during a blocked ping, silence after >= 1 "
-     "answered ping, or >= 3 answered pings in the negative class; distinct = FNV-64 of the case.",
-     [dict(tests="^TestVerifC13_KeepAlive$", checks_quick=1200, checks_thorough=24000, shards=12),
+     "answered ping, or >= 3 answered pings in the negative class; distinct = FNV-64 of the case. KeepAliveOption: no ping interval given, it follows from WithKeepAlive(1): a peer silent from the CONNECT on (or behind the first request) must still be closed and replaced (cases of about 3 s).",
+     [dict(tests="^TestVerifC13_KeepAliveOption$", checks_quick=2, checks_thorough=12, shards=4, shards_quick=1),
+      dict(tests="^TestVerifC13_KeepAlive$", checks_quick=1200, checks_thorough=24000, shards=12),
       dict(tests="^TestVerifC13_SilentPeer$", checks_quick=500, checks_thorough=9000, shards=8)],
      assumptions=["the scripted Client decides the outcome of each ping, so machine load cannot turn 'answered' into 'late'",
                   "timers and tickers never fire early (monotonic clock)"])
@@ -207,8 +208,9 @@ prop("C12", "retransmissions are faithful", "fault_enumeration",
      "cuts at every step; separately the base client's ErrorWithRetry handle driven through 1..5 interrupted fresh clients. Oracle "
      "over everything passed to Transport.Write (delivered or lost): first PUBLISH of a message DUP=0, later ones DUP=1 and "
      "identical in id/topic/payload/QoS/retain; QoS0 at most once; no PUBLISH after a PUBREL that was written successfully. "
-     "Non-trivial = a message was emitted >= 2 times; distinct = FNV-64 of the case JSON." + ENUMRULE,
-     [dict(tests="^TestVerifC12_CutEnum$", exhaustive_once=True),
+     "Non-trivial = a message was emitted >= 2 times; distinct = FNV-64 of the case JSON. ManyRetransmissions: one QoS1/QoS2 message whose PUBLISH (or PUBACK) is lost on 257..320 consecutive connections." + ENUMRULE,
+     [dict(tests="^TestVerifC12_ManyRetransmissions$", checks_quick=4, checks_thorough=40, shards=2, shards_quick=1),
+      dict(tests="^TestVerifC12_CutEnum$", exhaustive_once=True),
       dict(tests="^TestVerifC12_Retransmit$", checks_quick=2500, checks_thorough=36000, shards=12),
       dict(tests="^TestVerifC12_RetryHandle$", checks_quick=2500, checks_thorough=75000, shards=4)],
      assumptions=["a PUBREL whose Write failed does not count as sent for the 'no PUBLISH after PUBREL' rule"])
